@@ -5,7 +5,7 @@
    the pass-through clause of C10 (safe mode, escape mode, no raw HTML in the input) plays no role at
    event level: the theorems below hold for every option record.  What matters are the tree-shape
    clauses of Spec/Shape.v. *)
-From Coq Require Import List NArith Bool Lia Strings.String FinFun.
+From Coq Require Import List Arith NArith Bool Lia Strings.String FinFun.
 From Coq Require Strings.Byte.
 From V Require Import Base.Bytes Base.Res Model.Ast Model.Tagfilter0 Model.Html Spec.HtmlSpec Spec.Shape.
 Import ListNotations.
@@ -378,3 +378,334 @@ Section R.
     events slug o t = Ok evs -> well_nested evs = true.
   Proof. intros H2 H3 H6. apply nested_weak; auto using s6_s6w. Qed.
 End R.
+
+(* ------------------------------------------------------------------ dec is injective *)
+Definition dval (l : bytes) : N := fold_left (fun a b => (10 * a + (bN b - 48))%N) l 0%N.
+
+Lemma dec_aux_app f : forall n acc, dec_aux f n acc = dec_aux f n [] ++ acc.
+Proof.
+  induction f as [|f IH]; intros n acc; [reflexivity|].
+  cbn [dec_aux]. destruct (n <? 10)%N; [reflexivity|].
+  rewrite IH, (IH _ [_]), <- app_assoc. reflexivity.
+Qed.
+
+Lemma bN_digit m : (m < 10)%N -> (bN (byte_of_N (48 + m)) - 48 = m)%N.
+Proof.
+  intro H. unfold bN, byte_of_N.
+  destruct (Byte.of_N (48 + m)) as [b|] eqn:E.
+  - apply Byte.to_of_N in E. rewrite E. lia.
+  - apply Byte.of_N_None_iff in E. lia.
+Qed.
+
+Lemma dval_dec_aux f : forall n, (n < 2 ^ N.of_nat f)%N -> dval (dec_aux f n []) = n.
+Proof.
+  induction f as [|f IH]; intros n H.
+  - cbn in H. assert (n = 0%N) by lia. subst. reflexivity.
+  - cbn [dec_aux]. destruct (n <? 10)%N eqn:L.
+    + apply N.ltb_lt in L. unfold dval. cbn [fold_left]. rewrite N.mod_small by exact L.
+      rewrite bN_digit by exact L. lia.
+    + apply N.ltb_ge in L. rewrite dec_aux_app. unfold dval. rewrite fold_left_app. cbn [fold_left].
+      fold (dval (dec_aux f (n / 10) [])). rewrite IH.
+      * rewrite bN_digit by (apply N.mod_lt; lia). pose proof (N.div_mod n 10). lia.
+      * rewrite Nnat.Nat2N.inj_succ, N.pow_succ_r' in H.
+        apply N.div_lt_upper_bound; lia.
+Qed.
+
+Lemma dval_dec n : dval (dec n) = n.
+Proof.
+  unfold dec. apply dval_dec_aux.
+  rewrite Nnat.Nat2N.inj_succ, Nnat.N2Nat.id.
+  destruct (N.eq_dec n 0) as [->|Hn]; [reflexivity|].
+  apply N.log2_lt_pow2; lia.
+Qed.
+
+Lemma dec_inj a b : dec a = dec b -> a = b.
+Proof. intro H. rewrite <- (dval_dec a), <- (dval_dec b), H. reflexivity. Qed.
+
+(* ------------------------------------------------------------------ uniq_loop has enough fuel *)
+Definition cand (id : bytes) (k : N) : bytes := if (k =? 0)%N then id else id ++ [x2d] ++ dec k.
+
+Lemma cand_inj id j k : cand id j = cand id k -> j = k.
+Proof.
+  unfold cand. destruct (j =? 0)%N eqn:J, (k =? 0)%N eqn:K; intro H.
+  - apply N.eqb_eq in J, K. congruence.
+  - apply (f_equal (@List.length _)) in H. rewrite app_length in H. cbn in H. lia.
+  - apply (f_equal (@List.length _)) in H. rewrite app_length in H. cbn in H. lia.
+  - apply app_inv_head in H. inversion H. apply dec_inj. assumption.
+Qed.
+
+Lemma uniq_loop_cases iss id : forall f k,
+  (exists a, uniq_loop f iss id k = Ok a) \/
+  (forall j, j < f -> In (cand id (k + N.of_nat j)) iss).
+Proof.
+  induction f as [|f IH]; intro k; [right; intros; lia|].
+  cbn [uniq_loop]. fold (cand id k).
+  destruct (existsb (bytes_eqb (cand id k)) iss) eqn:E.
+  - destruct (IH (k + 1)%N) as [H|H]; [left; exact H|right].
+    intros [|j] Hj.
+    + rewrite N.add_0_r. apply existsb_exists in E. destruct E as [x [Hx Ex]].
+      apply bytes_eqb_eq in Ex. subst. exact Hx.
+    + replace (k + N.of_nat (S j))%N with (k + 1 + N.of_nat j)%N by lia. apply H. lia.
+  - left. eexists. reflexivity.
+Qed.
+
+Lemma uniq_loop_total iss id : exists a, uniq_loop (S (List.length iss)) iss id 0%N = Ok a.
+Proof.
+  destruct (uniq_loop_cases iss id (S (List.length iss)) 0%N) as [H|H]; [exact H|exfalso].
+  set (l := map (fun j => cand id (N.of_nat j)) (seq 0 (S (List.length iss)))).
+  assert (ND : NoDup l).
+  { apply Injective_map_NoDup; [|apply seq_NoDup].
+    intros a b E. apply cand_inj in E. lia. }
+  assert (I : incl l iss).
+  { intros x Hx. apply in_map_iff in Hx. destruct Hx as [j [<- Hj]]. apply in_seq in Hj.
+    apply (H j). lia. }
+  pose proof (NoDup_incl_length ND I) as L. unfold l in L. rewrite map_length, seq_length in L. lia.
+Qed.
+
+(* ------------------------------------------------------------------ tagfilter never fails *)
+Lemma tagfilter_total l : exists b, tagfilter l = Ok b.
+Proof.
+  unfold tagfilter. destruct l as [|c0 [|c1 [|c2 r]]]; try (eexists; reflexivity).
+  destruct (negb (beqb c0 x3c)); [eexists; reflexivity|].
+  match goal with |- context [first_match ?a ?b] => destruct (first_match a b) as [[cj after]|] end;
+    eexists; reflexivity.
+Qed.
+
+Lemma tagfilter_block_go_total : forall s out, exists b, tagfilter_block_go s out = Ok b.
+Proof.
+  induction s as [|c r IH]; intro out; cbn [tagfilter_block_go]; [eexists; reflexivity|].
+  destruct (beqb c x3c); [|apply IH].
+  destruct (tagfilter_total (c :: r)) as [t ->]. cbn [bind]. apply IH.
+Qed.
+
+Lemma tagfilter_block_total s : exists b, tagfilter_block s = Ok b.
+Proof. apply tagfilter_block_go_total. Qed.
+
+(* ------------------------------------------------------------------ totality *)
+Ltac tot :=
+  repeat match goal with
+  | |- exists r, (if ?b then _ else _) = Ok r => destruct b
+  | |- exists r, (match ?x with _ => _ end) = Ok r => destruct x
+  end; try (eexists; reflexivity).
+
+Section T.
+  Variable slug : bytes -> bytes.
+  Variable o : opts.
+
+  (* what a context must provide: a paragraph has a parent; a cell has an alignment entry *)
+  Definition tpre (c : ctx) (v : node_value) : Prop :=
+    (v = Paragraph -> c_parent c <> None) /\
+    (v = TableCell -> forall t, c_gparent c = Some (Table t) -> c_index c < List.length (t_aligns t)).
+
+  Lemma enter_total c v sp ch st :
+    s3_go (c_parent c) (c_gparent c) (Node v sp ch) = true -> tpre c v ->
+    exists r, enter slug o c (Node v sp ch) st = Ok r.
+  Proof.
+    intros H3 [_ Hc]. cbn [s3_go] in H3. apply andb_true_iff in H3. destruct H3 as [Hk _].
+    destruct v; unfold enter; cbv beta iota zeta.
+    all: try (tot; fail).
+    - (* HtmlBlock *)
+      destruct (o_escape o); [eexists; reflexivity|].
+      destruct (negb (o_unsafe o)); [eexists; reflexivity|].
+      destruct (o_tagfilter o); [|eexists; reflexivity].
+      destruct (tagfilter_block_total lit) as [f ->]. cbn [bind]. eexists; reflexivity.
+    - (* Heading *)
+      destruct (o_header_ids o); [|eexists; reflexivity].
+      unfold anchorize.
+      destruct (uniq_loop_total (issued st) (slug (collect_text (Node (Heading level setext) sp ch)))) as [a ->].
+      cbn [bind]. eexists; reflexivity.
+    - (* TableCell *)
+      specialize (Hc eq_refl).
+      destruct (c_parent c) as [pvv|]; [|discriminate Hk].
+      destruct pvv; try discriminate Hk.
+      destruct (c_gparent c) as [gvv|]; [|discriminate Hk].
+      destruct gvv; try discriminate Hk.
+      specialize (Hc _ eq_refl).
+      destruct (nth_error (t_aligns t) (c_index c)) eqn:E; [eexists; reflexivity|].
+      apply nth_error_None in E. lia.
+    - (* HtmlInline *)
+      destruct (o_escape o); [eexists; reflexivity|].
+      destruct (negb (o_unsafe o)); [eexists; reflexivity|].
+      destruct (o_tagfilter o); [|eexists; reflexivity].
+      destruct (tagfilter_total lit) as [f ->]. cbn [bind]. destruct f; eexists; reflexivity.
+  Qed.
+
+  Lemma exit_total c v sp ch st :
+    s3_go (c_parent c) (c_gparent c) (Node v sp ch) = true -> tpre c v ->
+    exists r, exit_ o c (Node v sp ch) st = Ok r.
+  Proof.
+    intros H3 [Hp _]. cbn [s3_go] in H3. apply andb_true_iff in H3. destruct H3 as [Hk _].
+    destruct v; unfold exit_; cbv beta iota zeta.
+    all: try (tot; fail).
+    - (* Paragraph *)
+      specialize (Hp eq_refl). destruct (c_parent c) as [pvv|]; [|congruence]. tot.
+    - (* Table *)
+      destruct ch as [|x [|y r]]; [discriminate Hk| |]; eexists; reflexivity.
+    - (* TableCell *)
+      destruct (c_parent c) as [pvv|]; [|discriminate Hk].
+      destruct pvv; try discriminate Hk.
+      destruct (c_gparent c) as [gvv|]; [|discriminate Hk].
+      destruct gvv; try discriminate Hk.
+      eexists; reflexivity.
+  Qed.
+
+  Definition Q (n : node) : Prop := forall c st,
+    s3_go (c_parent c) (c_gparent c) n = true -> tpre c (nval n) ->
+    exists r, render slug o c n st = Ok r.
+
+  Lemma s3_child_cell v pv x :
+    s3_go (Some v) pv x = true -> nval x = TableCell -> is_row_v v = true.
+  Proof.
+    destruct x as [vx spx chx]. cbn [s3_go nval]. intros H ->.
+    destruct v; try reflexivity; discriminate H.
+  Qed.
+
+  Lemma list_total v pv : forall l, Forall Q l -> forall i prev st,
+    forallb (s3_go (Some v) pv) l = true ->
+    (forall t, is_row_v v = true -> pv = Some (Table t) -> i + List.length l <= List.length (t_aligns t)) ->
+    exists r, render_list slug o v pv l i prev st = Ok r.
+  Proof.
+    induction 1 as [|x r Hx Hr IH]; intros i prev st H3 Hb; [eexists; reflexivity|].
+    cbn [render_list]. cbn [forallb] in H3. apply andb_true_iff in H3. destruct H3 as [H3x H3r].
+    match goal with |- context [render slug o ?c x st] =>
+      destruct (Hx c st H3x) as [[ex sx] ->] end.
+    { split; cbn [c_parent c_gparent c_index].
+      - discriminate.
+      - intros E t Ep. pose proof (Hb t (s3_child_cell _ _ _ H3x E) Ep) as L. cbn [List.length] in L. lia. }
+    cbn [bind].
+    destruct (IH (S i) (Some (nval x)) sx H3r) as [[er sr] ->].
+    { intros t R Ep. pose proof (Hb t R Ep) as L. cbn [List.length] in L. lia. }
+    cbn [bind]. eexists; reflexivity.
+  Qed.
+
+  Lemma render_Q : forall n, Q n.
+  Proof.
+    apply node_ind2. intros v sp ch IH c st H3 Hpre. cbn [nval] in Hpre.
+    rewrite render_unfold.
+    destruct (enter_total c v sp ch st H3 Hpre) as [[[e1 st1] m] ->]. cbn [bind].
+    assert (H3c : forallb (s3_go (Some v) (c_parent c)) ch = true).
+    { cbn [s3_go] in H3. apply andb_true_iff in H3. apply H3. }
+    assert (Hb : forall t, is_row_v v = true -> c_parent c = Some (Table t) ->
+                 0 + List.length ch <= List.length (t_aligns t)).
+    { intros t R Ep. cbn [s3_go] in H3. apply andb_true_iff in H3. destruct H3 as [Hk _].
+      destruct v; try discriminate R. rewrite Ep in Hk. apply andb_true_iff in Hk. destruct Hk as [_ Hk].
+      apply Nat.eqb_eq in Hk. cbn [plus]. rewrite Hk. apply le_n. }
+    destruct m.
+    - destruct (list_total v (c_parent c) ch IH 0 None st1 H3c Hb) as [[e2 st2] ->]. cbn [bind].
+      destruct (exit_total c v sp ch st2 H3 Hpre) as [[e3 st3] ->]. cbn [bind]. eexists; reflexivity.
+    - cbn [bind].
+      destruct (exit_total c v sp ch st1 H3 Hpre) as [[e3 st3] ->]. cbn [bind]. eexists; reflexivity.
+  Qed.
+
+  (* the root may be anything but a Paragraph (and, by S3, not a TableRow or TableCell) *)
+  Theorem total_gen t :
+    nval t <> Paragraph -> s3 t = true -> exists evs, events slug o t = Ok evs.
+  Proof.
+    intros Hp H3. unfold events.
+    destruct (render_Q t root_ctx (mkHst 0 0 []) H3) as [[e st] ->].
+    - split; [intro E; contradiction | intros E t0 G; discriminate G].
+    - cbn [bind]. eexists; reflexivity.
+  Qed.
+
+  Theorem total t :
+    s2 t = true -> s3 t = true -> exists evs, events slug o t = Ok evs.
+  Proof.
+    intros H2 H3. apply total_gen; [|exact H3].
+    unfold s2 in H2. intro E. rewrite E in H2. discriminate.
+  Qed.
+
+  Theorem total_bytes t :
+    s2 t = true -> s3 t = true -> exists b, html slug o t = Ok b.
+  Proof.
+    intros H2 H3. unfold html. destruct (total t H2 H3) as [e ->]. cbn [bind]. eexists; reflexivity.
+  Qed.
+End T.
+
+(* ------------------------------------------------------------------ witnesses: each clause is needed *)
+Definition o_plain : opts :=
+  mkOpts false None true false false false false false false 0 false false 0 false false false
+         false false false 0 false false.
+(* tagfilter, header ids, relaxed autolinks, sourcepos, escaped char spans, gfm quirks,
+   figure with caption, tasklist classes *)
+Definition o_rich : opts :=
+  mkOpts true (Some (B "user-content-")) true false false true false false false 0 false false 0
+         true true true false true true 0 false false.
+Definition nd (v : node_value) (ch : list node) : node := Node v (mkSp 1 1 1 1) ch.
+Definition txt (s : string) : node := nd (Text (B s)) [].
+Definition para (ch : list node) : node := nd Paragraph ch.
+Definition cell (s : string) : node := nd TableCell [txt s].
+Definition slug_id (b : bytes) : bytes := b.
+Definition tbl1 : node_table := mkTable 1 2 2 [ANone].
+
+(* S6: a footnote definition inside a block quote *)
+Definition w_fn_in_quote : node :=
+  nd Document [nd BlockQuote [nd (FootnoteDefinition (B "a") 1) [para [txt "x"]]]].
+(* S3: the second row is a header row too; a row outside a table *)
+Definition w_two_headers : node :=
+  nd Document [nd (Table tbl1) [nd (TableRow true) [cell "a"]; nd (TableRow true) [cell "b"]]].
+Definition w_row_outside : node :=
+  nd Document [nd (TableRow true) []; nd (TableRow false) []].
+(* S3 / S2, totality *)
+Definition w_cell_at_root : node := nd Document [cell "a"].
+Definition w_empty_table : node := nd Document [nd (Table tbl1) []].
+Definition w_wide_row : node := nd Document [nd (Table tbl1) [nd (TableRow true) [cell "a"; cell "b"]]].
+Definition w_para_root : node := para [txt "a"].
+(* S6 is stronger than needed: a definition inside a definition is still balanced *)
+Definition w_fn_in_fn : node :=
+  nd Document [nd (FootnoteDefinition (B "a") 1) [para [txt "x"]; nd (FootnoteDefinition (B "b") 1) [para [txt "y"]]]].
+
+Definition unbalanced (t : node) : Prop :=
+  exists evs, events slug_id o_plain t = Ok evs /\ well_nested evs = false.
+Definition panics (t : node) : Prop :=
+  exists site, events slug_id o_plain t = Panic site.
+
+Lemma s6_needed : s2 w_fn_in_quote = true /\ s3 w_fn_in_quote = true /\ s6 w_fn_in_quote = false /\
+                  unbalanced w_fn_in_quote.
+Proof. repeat split; try (vm_compute; reflexivity). eexists; split; vm_compute; reflexivity. Qed.
+
+Lemma s3_header_needed : s2 w_two_headers = true /\ s6 w_two_headers = true /\ s3 w_two_headers = false /\
+                         unbalanced w_two_headers.
+Proof. repeat split; try (vm_compute; reflexivity). eexists; split; vm_compute; reflexivity. Qed.
+
+Lemma s3_row_parent_needed : s2 w_row_outside = true /\ s6 w_row_outside = true /\ s3 w_row_outside = false /\
+                             unbalanced w_row_outside.
+Proof. repeat split; try (vm_compute; reflexivity). eexists; split; vm_compute; reflexivity. Qed.
+
+Lemma s3_cell_parent_needed : s2 w_cell_at_root = true /\ s3 w_cell_at_root = false /\ panics w_cell_at_root.
+Proof. repeat split; try (vm_compute; reflexivity). eexists; vm_compute; reflexivity. Qed.
+
+Lemma s3_nonempty_needed : s2 w_empty_table = true /\ s3 w_empty_table = false /\ panics w_empty_table.
+Proof. repeat split; try (vm_compute; reflexivity). eexists; vm_compute; reflexivity. Qed.
+
+Lemma s3_width_needed : s2 w_wide_row = true /\ s3 w_wide_row = false /\ panics w_wide_row.
+Proof. repeat split; try (vm_compute; reflexivity). eexists; vm_compute; reflexivity. Qed.
+
+Lemma s2_needed : s3 w_para_root = true /\ s2 w_para_root = false /\ panics w_para_root.
+Proof. repeat split; try (vm_compute; reflexivity). eexists; vm_compute; reflexivity. Qed.
+
+Lemma s6_not_necessary :
+  s6 w_fn_in_fn = false /\ s6w w_fn_in_fn = true /\
+  exists evs, events slug_id o_plain w_fn_in_fn = Ok evs /\ well_nested evs = true.
+Proof. repeat split; try (vm_compute; reflexivity). eexists; split; vm_compute; reflexivity. Qed.
+
+(* ------------------------------------------------------------------ non-vacuity *)
+Definition tbl3 : node_table := mkTable 2 3 6 [ALeft; ANone].
+Definition lst (tight : bool) : node_list := mkList Bullet 0 2 1 Period 45 tight false.
+Definition ex_tree : node :=
+  nd Document
+    [ nd (Heading 1 false) [txt "T"];
+      nd (Heading 2 false) [txt "T"];
+      nd (Table tbl3)
+        [ nd (TableRow true) [cell "h1"; cell "h2"];
+          nd (TableRow false) [cell "a"; cell "b"];
+          nd (TableRow false) [cell "c"; cell "d"] ];
+      nd (NList (lst true))
+        [ nd (Item (lst true)) [para [txt "t"; nd Strong [nd Strong [txt "s"]]]] ];
+      nd (NList (lst false))
+        [ nd (Item (lst false)) [para [txt "u"; nd (FootnoteReference (B "a") 1 1) []]];
+          nd (Item (lst false)) [para [nd (Image (B "i.png") (B "cap")) [txt "alt"]]] ];
+      para [nd (Link (B "http://x/") (B "")) [nd (Link (B "http://y/") (B "")) [txt "l"]];
+            nd (FootnoteReference (B "b") 1 2) []; nd (HtmlInline (B "<b>")) []];
+      nd (HtmlBlock 6 (B "<div>")) [];
+      nd (FootnoteDefinition (B "a") 1) [para [txt "fa"]];
+      nd (FootnoteDefinition (B "b") 1) [para [txt "fb"]; nd BlockQuote [para [txt "q"]]] ].
